@@ -1,21 +1,35 @@
-(* Props.v (C18) — statements only.  Proofs: C18/Lemmas.v; model: C18/Pipelines.v.
+(* Props.v (C18) — statements only.  Proofs: C18/Lemmas.v, Lemmas2.v, Lemmas3.v; model: C18/Pipelines.v.
 
-   Reading.  `pipeline t f c fr` is the sample that framework f
+   Reading.  `fpipeline t f x c fr` (round 4) is the sample that framework f
    (Mem = torch_dataset, Npc = torch_dataset_np_chunks, Str = *_data_chunks +
-   *StreamingDataset.__getitem__) returns for model type t, configuration c and
-   labelled frame fr, as the data the network input and the targets are
-   functions of: image size / channels / content map / value range, keypoints,
-   centroids, bbox corner, and the inputs (points, H, W, sigma, stride, edges)
-   of the target generators.  `same_sample a b` = all of these are EQUAL
-   (Leibniz; the model normalises every rational) except the count of 8-bit
-   round trips; `same_sample_centroid` leaves out sample["instances"], which the
-   centroid model's targets are not drawn from.  `domain` is the property's
-   domain.  All theorems are unbounded: any frame size, any number of
-   instances / nodes, any NaN pattern, any rational scale > 0, any stride,
-   both behaviours (c_wt) of generate_centroids' write-through (DESIGN F5). *)
+   *StreamingDataset.__getitem__) returns for model type t, the USER's configuration (x: both
+   sources of max_height / max_width — data_config and the max_hw argument — and the two
+   repair flags; c: everything else) and labelled frame fr, as the data the network input and
+   the targets are functions of: image size / channels / content map / value range, keypoints,
+   centroids, bbox corner, and the inputs (points, H, W, sigma, stride, edges) of the target
+   generators.  `pipeline t f c fr` is the same composition once the bounds have been resolved
+   (`fw_cfg`: the datasets read only the argument, the chunk functions prefer the config —
+   finding F180) and max_instances fixed (`fw_frame`: finding F181).  `fw_samples kd f x c frames`
+   is the list of samples of a whole label set, None = the framework raises (finding F182).
+   `same_sample a b` = all observables EQUAL (Leibniz; the model normalises every rational) except
+   the count of 8-bit round trips (bounded separately: c18_quantisation_count);
+   `same_sample_centroid` leaves out sample["instances"], which the centroid model's targets are
+   not drawn from.
+
+   The property's clause (a) is FALSE of the current tree in three ways (c18_F180_refuted,
+   c18_F181_refuted, c18_F182_refuted); the strongest true statements are
+   c18_frameworks_agree_partial / c18_samples_agree_partial under the complements of the exact,
+   decidable selectors sel_F180 / sel_F181 / sel_F182 (mirrored in the Python oracle), and
+   c18_frameworks_agree_repaired for the tree with proposed_fixes/C18_F180.diff + C18_F181.diff.
+   `domain` / c18_frameworks_agree / c18_single_mem_str ... below are the COMPONENT theorems about
+   `pipeline` (all frameworks handed the same bounds; single-instance with max_instances = 1):
+   `domain` is NOT the property's domain (review finding 2) — `agree_domain` is.
+   All theorems are unbounded: any frame size, any number of instances / nodes, any NaN pattern,
+   any rational scale > 0, any stride, both behaviours (c_wt) of generate_centroids (pinned tree
+   before fix 563a1fb: write-through, F5; current tree: no write-through). *)
 From Coq Require Import List Arith ZArith QArith Qround Bool.
 Import ListNotations.
-From SV Require Import C01.ConfMaps C18.Pipelines C18.Lemmas C18.Lemmas2.
+From SV Require Import C01.ConfMaps C18.Pipelines C18.Lemmas C18.Lemmas2 C18.Lemmas3.
 Open Scope Q_scope.
 
 (* ---- the definitions the statements are about, restated ---- *)
@@ -42,8 +56,9 @@ Print Assumptions agree_def.
 
 (* ---- (a) the three frameworks agree ---- *)
 
-(* main theorem: in the property's domain every pair of frameworks returns the
-   same sample *)
+(* component theorem (all frameworks handed the SAME resolved bounds; `domain` demands
+   max_instances = 1 for single-instance): every pair of frameworks returns the same sample.
+   The property's clause is c18_frameworks_agree_partial (section (a'), below). *)
 Theorem c18_frameworks_agree : forall t c fr, domain t c fr ->
   forall f1 f2, agree t (pipeline t f1 c fr) (pipeline t f2 c fr).
 Proof. exact frameworks_agree. Qed.
@@ -93,8 +108,9 @@ Theorem c18_instance_index_agree : forall raw k, (k < length (filter nonempty ra
 Proof. exact instance_index_agree. Qed.
 Print Assumptions c18_instance_index_agree.
 
-(* hence equal confidence maps (the C01 functions of o_cm) and equal values of
-   ANY function of the target inputs (PAFs: C05) *)
+(* _congr: hence equal confidence maps (the C01 functions of o_cm) and equal values of
+   ANY function of the target inputs (PAFs: C05).  Congruence only: that the code's targets ARE
+   functions of o_cm / o_paf is a harness obligation (targets regenerated with the repo's generators) *)
 Theorem c18_equal_targets : forall a b, same_sample a b ->
   (forall style, confmaps_of style (o_cm a) = confmaps_of style (o_cm b)) /\
   (forall (T : Type) (F : cm_in -> T), F (o_cm a) = F (o_cm b)) /\
@@ -149,7 +165,8 @@ Example ex_centroid_half :
   o_cm a = o_cm b /\ o_pts a <> o_pts b.
 Proof. exact centroid_half_example. Qed.
 
-(* the hypothesis of the single-instance theorem is needed *)
+(* the hypothesis of the single-instance component theorem is needed (= finding F181, see
+   c18_F181_refuted: the property has no such hypothesis) *)
 Example ex_single_outside_domain_differs :
   let fr := {| f_h := 100%Z; f_w := 100%Z; f_c := 1%Z; f_raw := [[Some (30, 40); Some (50, 60)]]; f_maxinst := 2%nat |} in
   o_pts (pipeline Single Mem (wcfg 1) fr) <> o_pts (pipeline Single Str (wcfg 1) fr).
@@ -186,6 +203,8 @@ Theorem c18_dp_cropper : forall g bh bw num insts cents,
 Proof. exact dp_cropper_spec. Qed.
 Print Assumptions c18_dp_cropper.
 
+(* _def: the cm / mcm / ccm block models are C01's functions by definition; their tie to the
+   blocks' code is the oracle (block kinds cm, mcm, ccm) and C01's own tie *)
 Theorem c18_dp_confmaps : forall pts3 pts4 H W sigma s,
   dp_confmaps_instance pts3 H W sigma s = generate_confmaps3 pts3 H W sigma s /\
   dp_confmaps_instances pts4 H W sigma s = generate_confmaps4 pts4 H W sigma s.
@@ -211,10 +230,40 @@ Theorem c18_dp_multiconfmaps_centroids : forall cents H W num sigma s,
 Proof. reflexivity. Qed.
 Print Assumptions c18_dp_multiconfmaps_centroids.
 
+(* _def: the two are the same term (the inputs of the PAF generator); the block's own inline
+   filter is modelled separately: c18_dp_paf_filter below *)
 Theorem c18_dp_pafs : forall kps g psigma pstride edges,
   dp_paf_inputs kps g psigma pstride edges = fn_paf_inputs kps g psigma pstride edges.
 Proof. reflexivity. Qed.
 Print Assumptions c18_dp_pafs.
+
+(* PartAffinityFieldsGenerator's inline copy of the in-image filter + get_edge_points (what its
+   make_multi_pafs call receives) = generate_pafs's; both evaluated against the code (block kind paf) *)
+Theorem c18_dp_paf_filter : forall g insts edges,
+  dp_paf_points g insts edges = fn_paf_points (gh g) (gw g) insts edges.
+Proof. exact dp_paf_points_eq. Qed.
+Print Assumptions c18_dp_paf_filter.
+
+(* what the filter keeps: the animals with a labelled node in the closed pixel rectangle
+   [0, W-1] x [0, H-1] (NaN nodes never count) *)
+Theorem c18_paf_keep_spec : forall H W insts i,
+  In i (filter (existsb (node_in_img H W)) insts) <->
+  In i insts /\ exists x y, In (Some (x, y)) i /\ 0 <= x /\ x <= qz (W - 1) /\ 0 <= y /\ y <= qz (H - 1).
+Proof. exact paf_keep_spec. Qed.
+Print Assumptions c18_paf_keep_spec.
+
+(* process_lf's NaN padding rows never reach make_multi_pafs *)
+Theorem c18_paf_padding_dropped : forall H W l n k edges,
+  fn_paf_points H W (l ++ repeat (repeat None n) k) edges = fn_paf_points H W l edges.
+Proof. exact paf_padding_dropped. Qed.
+Print Assumptions c18_paf_padding_dropped.
+
+Example ex_paf_filter :
+  fst (fn_paf_points 10 20 [[Some (19, 5); Some (25, 12)]; [Some (77 # 4, 10); Some (20, 5)]; [None; None]] [(0, 1)%nat])
+    = [[Some (19, 5)]] /\
+  dp_paf_points (wsrc 10 20) [[Some (19, 5); Some (25, 12)]; [Some (77 # 4, 10); Some (20, 5)]; [None; None]] [(0, 1)%nat]
+    = ([[Some (19, 5)]], [[Some (25, 12)]]).
+Proof. exact paf_example. Qed.
 
 (* ---- (b', round 2) the blocks the property does not list, and the composed legacy pipelines ---- *)
 
@@ -244,6 +293,8 @@ Theorem c18_dp_sizematcher_raises : forall mh mw g,
 Proof. exact dp_sizematcher_raises. Qed.
 Print Assumptions c18_dp_sizematcher_raises.
 
+(* dp_sizematcher is ONE step of the block from its current state (a None bound = not fixed yet);
+   the stateful iteration is dp_sizematcher_run: c18_dp_sizematcher_run_* below *)
 Theorem c18_dp_sizematcher_keeps_map : forall mh mw g g', dp_sizematcher mh mw g = Some g' ->
   gx g' = gx g /\ gy g' = gy g.
 Proof. exact dp_sizematcher_keeps_map. Qed.
@@ -350,3 +401,193 @@ Example ex_dp_pipelines :
        = [[Some (60, 80); Some (40, 20)]]) /\
   dp_single (wcfg 1) {| f_h := 120%Z; f_w := 100%Z; f_c := 1%Z; f_raw := [[Some (30, 40)]]; f_maxinst := 1%nat |} = None.
 Proof. exact dp_examples. Qed.
+
+(* ---- (a', round 4) the user's configuration: per-framework resolution, selectors, label sets ---- *)
+
+Lemma agree_domain_def : forall t c fr, agree_domain t c fr =
+  (0 < c_scale c /\
+   match t with
+   | Centered k => c_scale c == 1 /\ (k < length (filter nonempty (f_raw fr)))%nat
+   | _ => True
+   end).
+Proof. reflexivity. Qed.
+Print Assumptions agree_domain_def.
+
+Lemma fpipeline_def : forall t f x c fr, fpipeline t f x c fr = pipeline t f (fw_cfg f x c) (fw_frame t f x fr).
+Proof. reflexivity. Qed.
+Print Assumptions fpipeline_def.
+
+Lemma sel_F180_def : forall x fr, sel_F180 x fr =
+  negb ((odef (f_h fr) (ds_maxh x) =? odef (f_h fr) (st_maxh x))%Z && (odef (f_w fr) (ds_maxw x) =? odef (f_w fr) (st_maxw x))%Z).
+Proof. reflexivity. Qed.
+Print Assumptions sel_F180_def.
+
+Lemma sel_F181_def : forall t x fr, sel_F181 t x fr =
+  match t with
+  | Single => negb (x_fx181 x) && negb (f_maxinst fr =? 1)%nat && negb (f_maxinst fr =? length (filter nonempty (f_raw fr)))%nat
+  | _ => false
+  end.
+Proof. reflexivity. Qed.
+Print Assumptions sel_F181_def.
+
+(* the property's clause (a), strongest true form on the current tree: outside the two selectors
+   every pair of frameworks returns the same sample (all types at scale 1; single, centroid,
+   bottom-up at any scale) *)
+Theorem c18_frameworks_agree_partial : forall t x c fr,
+  agree_domain t c fr -> sel_F180 x fr = false -> sel_F181 t x fr = false ->
+  forall f1 f2, agree t (fpipeline t f1 x c fr) (fpipeline t f2 x c fr).
+Proof. exact fframeworks_agree_partial. Qed.
+Print Assumptions c18_frameworks_agree_partial.
+
+(* with proposed_fixes/C18_F180.diff and C18_F181.diff: no side condition *)
+Theorem c18_frameworks_agree_repaired : forall t x c fr,
+  x_fx180 x = true -> x_fx181 x = true -> agree_domain t c fr ->
+  forall f1 f2, agree t (fpipeline t f1 x c fr) (fpipeline t f2 x c fr).
+Proof. exact fframeworks_agree_repaired. Qed.
+Print Assumptions c18_frameworks_agree_repaired.
+
+(* Mem = Npc needs no condition at all (same class, same arguments) *)
+Theorem c18_fmem_npc_same : forall t x c fr, same_sample (fpipeline t Mem x c fr) (fpipeline t Npc x c fr).
+Proof. exact fpipeline_mem_npc. Qed.
+Print Assumptions c18_fmem_npc_same.
+
+(* where the F180 selector cannot fire: config bounds unset, or equal to the argument, or repaired *)
+Theorem c18_sel_F180_off : forall x fr,
+  (x_cfgh x = None /\ x_cfgw x = None) \/ (x_cfgh x = x_argh x /\ x_cfgw x = x_argw x) \/ x_fx180 x = true ->
+  sel_F180 x fr = false.
+Proof.
+  intros x fr [[A B]|[[A B]|A]]; [now apply cfg_none_no_selector|now apply cfg_eq_arg_no_selector|now apply fx180_no_selector].
+Qed.
+Print Assumptions c18_sel_F180_off.
+
+(* F180 refuted: 64x64 frame, data_config max 128, max_hw argument 64 (what ModelTrainer passes):
+   the datasets keep 64x64, the chunk functions scale to 128x128 (keypoints x 2) — every model type *)
+Theorem c18_F180_refuted :
+  let fr := wframe64 [[Some (20, 30); Some (40, 44)]] 1%nat in
+  let x := wx (Some 128%Z) (Some 64%Z) in
+  agree_domain Single wcfg0 fr /\ sel_F180 x fr = true /\ sel_F181 Single x fr = false /\
+  (gh (o_img (fpipeline Single Mem x wcfg0 fr)), gw (o_img (fpipeline Single Mem x wcfg0 fr))) = (64%Z, 64%Z) /\
+  (gh (o_img (fpipeline Single Str x wcfg0 fr)), gw (o_img (fpipeline Single Str x wcfg0 fr))) = (128%Z, 128%Z) /\
+  o_pts (fpipeline Single Mem x wcfg0 fr) = [[Some (20, 30); Some (40, 44)]] /\
+  o_pts (fpipeline Single Str x wcfg0 fr) = [[Some (40, 60); Some (80, 88)]] /\
+  (forall t, t = Single \/ t = BottomUp \/ t = Centroid \/ t = Centered 0 ->
+     ~ agree t (fpipeline t Mem x wcfg0 fr) (fpipeline t Str x wcfg0 fr)).
+Proof. exact F180_witness. Qed.
+Print Assumptions c18_F180_refuted.
+
+(* exactness: whenever the selector fires, the images differ in size right after size matching *)
+Theorem c18_sel_F180_sizes_differ : forall x c fr, sel_F180 x fr = true ->
+  let a := fst (apply_sizematcher (ds_maxh x) (ds_maxw x) (prep_img c (source_img fr))) in
+  let b := fst (apply_sizematcher (st_maxh x) (st_maxw x) (prep_img c (source_img fr))) in
+  (gh a, gw a) <> (gh b, gw b).
+Proof. exact sel_F180_sizes_differ. Qed.
+Print Assumptions c18_sel_F180_sizes_differ.
+
+(* F181 refuted: one user instance + one predicted instance, user_instances_only:
+   get_max_instances = 2 -> SingleInstanceDataset returns 2 rows / 4 channels, the chunk path 1 / 2 *)
+Theorem c18_F181_refuted :
+  let fr := wframe64 [[Some (20, 30); Some (40, 44)]] 2%nat in
+  let x := wx None (Some 64%Z) in
+  agree_domain Single wcfg0 fr /\ sel_F180 x fr = false /\ sel_F181 Single x fr = true /\
+  length (o_pts (fpipeline Single Mem x wcfg0 fr)) = 2%nat /\
+  length (o_pts (fpipeline Single Str x wcfg0 fr)) = 1%nat /\
+  (let '(p, _, _, _, _) := o_cm (fpipeline Single Mem x wcfg0 fr) in map (@length kp) p) = [4%nat] /\
+  (let '(p, _, _, _, _) := o_cm (fpipeline Single Str x wcfg0 fr) in map (@length kp) p) = [2%nat] /\
+  ~ agree Single (fpipeline Single Mem x wcfg0 fr) (fpipeline Single Str x wcfg0 fr).
+Proof. exact F181_witness. Qed.
+Print Assumptions c18_F181_refuted.
+
+Theorem c18_sel_F181_rows_differ : forall x c fr, sel_F181 Single x fr = true ->
+  length (o_pts (fpipeline Single Mem x c fr)) <> length (o_pts (fpipeline Single Str x c fr)).
+Proof. exact sel_F181_rows_differ. Qed.
+Print Assumptions c18_sel_F181_rows_differ.
+
+(* label sets (review finding 3): which frames yield samples, how many, and that they agree *)
+Lemma fw_samples_def : forall kd f x c frames, fw_samples kd f x c frames =
+  match f with
+  | Str => if existsb frame_empty frames then None else Some (flat_map (frame_samples kd Str x c) frames)
+  | _ => Some (flat_map (fun fr => if frame_empty fr then [] else frame_samples kd f x c fr) frames)
+  end.
+Proof. reflexivity. Qed.
+Print Assumptions fw_samples_def.
+
+Theorem c18_samples_agree_partial : forall kd x c frames,
+  kind_domain kd c -> sel_F182 frames = false ->
+  Forall (fun fr => sel_F180 x fr = false /\ kind_sel_F181 kd x fr = false) frames ->
+  forall f1 f2, exists l1 l2,
+    fw_samples kd f1 x c frames = Some l1 /\ fw_samples kd f2 x c frames = Some l2 /\
+    Forall2 (kind_agree kd) l1 l2.
+Proof. exact samples_agree_partial. Qed.
+Print Assumptions c18_samples_agree_partial.
+
+(* a framework raises iff it is the chunk path and some frame has no non-empty instance *)
+Theorem c18_samples_raise_iff : forall kd f x c frames,
+  fw_samples kd f x c frames = None <-> (f = Str /\ sel_F182 frames = true).
+Proof. exact fw_samples_raises. Qed.
+Print Assumptions c18_samples_raise_iff.
+
+Theorem c18_sel_F182_spec : forall frames,
+  sel_F182 frames = true <-> exists fr, In fr frames /\ filter nonempty (f_raw fr) = [].
+Proof. exact sel_F182_spec. Qed.
+Print Assumptions c18_sel_F182_spec.
+
+(* F182 refuted: such a label set is served by the datasets (frame skipped) and makes the chunk path raise *)
+Theorem c18_F182_refuted : forall kd x c frames, sel_F182 frames = true ->
+  fw_samples kd Str x c frames = None /\
+  (exists l, fw_samples kd Mem x c frames = Some l) /\ (exists l, fw_samples kd Npc x c frames = Some l).
+Proof. exact empty_frame_differs. Qed.
+Print Assumptions c18_F182_refuted.
+
+(* the enumeration the harness evaluates (fw_counts) is the length profile of fw_samples *)
+Theorem c18_samples_counts : forall kd f x c frames,
+  option_map (@length out) (fw_samples kd f x c frames) = option_map list_sum (fw_counts kd f frames).
+Proof. exact fw_samples_counts. Qed.
+Print Assumptions c18_samples_counts.
+
+(* centered-instance: sample k of a frame exists iff k < #non-empty instances, in every framework *)
+Theorem c18_centered_samples : forall fr t, In t (frame_types KCentered fr) <->
+  exists k, t = Centered k /\ (k < length (filter nonempty (f_raw fr)))%nat.
+Proof. exact frame_types_centered. Qed.
+Print Assumptions c18_centered_samples.
+
+Example ex_F182_counts :
+  let frames := [wframe64 [[Some (20, 30); Some (40, 44)]] 1%nat; wframe64 [] 1%nat;
+                 wframe64 [[None; None]] 1%nat] in
+  sel_F182 frames = true /\
+  fw_counts KBottomUp Mem frames = Some [1; 0; 0]%nat /\ fw_counts KBottomUp Npc frames = Some [1; 0; 0]%nat /\
+  fw_counts KBottomUp Str frames = None /\ fw_counts KCentered Mem frames = Some [1; 0; 0]%nat.
+Proof. exact F182_witness. Qed.
+
+(* ---- "up to 8-bit quantisation": exactly how many round trips (review finding 8) ---- *)
+Theorem c18_quantisation_count : forall t f x c fr,
+  gq (o_img (fpipeline t f x c fr)) = match f with Mem => 0%nat | _ => 1%nat end.
+Proof. exact fquantisation_count. Qed.
+Print Assumptions c18_quantisation_count.
+
+(* ---- SizeMatcher as the stateful iteration it is (review finding 5) ---- *)
+Theorem c18_dp_sizematcher_run_step : forall mh mw g t,
+  dp_sizematcher_run mh mw (g :: t) =
+  match dp_sizematcher mh mw g with
+  | None => ([], true)
+  | Some g' => let r := dp_sizematcher_run (Some (odef (gh g) mh)) (Some (odef (gw g) mw)) t in (g' :: fst r, snd r)
+  end.
+Proof. exact dp_sizematcher_run_step. Qed.
+Print Assumptions c18_dp_sizematcher_run_step.
+
+Theorem c18_dp_sizematcher_run_some : forall mh mw gs,
+  Forall (fun g => gh g = mh /\ gw g = mw) (fst (dp_sizematcher_run (Some mh) (Some mw) gs)) /\
+  (snd (dp_sizematcher_run (Some mh) (Some mw) gs) = false <->
+   Forall (fun g => dp_sizematcher (Some mh) (Some mw) g <> None) gs) /\
+  (snd (dp_sizematcher_run (Some mh) (Some mw) gs) = false ->
+   map Some (fst (dp_sizematcher_run (Some mh) (Some mw) gs)) = map (dp_sizematcher (Some mh) (Some mw)) gs).
+Proof. exact dp_sizematcher_run_some. Qed.
+Print Assumptions c18_dp_sizematcher_run_some.
+
+(* a None bound is fixed by the FIRST image: widths 30, 24, 40 with max_width None -> 30, 30, raise *)
+Theorem c18_dp_sizematcher_latch :
+  let gs := [wsrc 20 30; wsrc 20 24; wsrc 20 40] in
+  map (fun g => gw g) (fst (dp_sizematcher_run (Some 20%Z) None gs)) = [30%Z; 30%Z] /\
+  snd (dp_sizematcher_run (Some 20%Z) None gs) = true /\
+  map (fun g => option_map (fun g' => gw g') (dp_sizematcher (Some 20%Z) None g)) gs = [Some 30%Z; Some 24%Z; Some 40%Z].
+Proof. exact dp_sizematcher_latch. Qed.
+Print Assumptions c18_dp_sizematcher_latch.
